@@ -8,6 +8,8 @@
    (verdict, whether f ran, every call to a hook or rule, in order); [trace] collects these.
    All statements hold for EVERY trip/reset/back-off rule and every HalfOpenConcurrentRequests. *)
 From V Require Import Base Breaker Breaker_proofs CorrBase Corr_C15 Corr_C15_proofs.
+From V Require Import BreakerClient BreakerClient_proofs Corr_C15Client Corr_C15Client_proofs.
+From Coq Require Import Permutation.
 Open Scope Z_scope.
 
 (* While closed, every call is let through: admitted under the current generation, f runs, no hook. *)
@@ -158,9 +160,146 @@ Theorem C15_monitor_accepts_model : forall p evs,
 Proof. exact monitor_accepts_model. Qed.
 Print Assumptions C15_monitor_accepts_model.
 
-Theorem C15_agreeing_case_is_fine : forall c,
+Theorem C15_agreeing_case_is_fine : forall c : Corr_C15.case,
   list_eqb obs_eqb (model_trace (c_par c) (c_evs c)) (c_obs c) = true ->
   Nat.eqb (length (inflight (model_final (c_par c) (c_evs c)))) (c_blocked c) = true ->
-  judge c = 0%N.
+  Corr_C15.judge c = 0%N.
 Proof. exact judge_agree_is_fine. Qed.
 Print Assumptions C15_agreeing_case_is_fine.
+
+(* ================================================================================================
+   The breaker IN FRONT OF the directory API: its client, internal/auth/providers/google_admin.go.
+   [sexec ... dir evs] is the state after an arbitrary interleaving [evs] of operations
+   (ListMemberships / CheckMemberships beginning, the directory answering the i-th outstanding
+   request, clock advances) against ONE breaker and an arbitrary scripted directory [dir] (answers may
+   depend on the request and on how many requests arrived before); [strace] is what each step showed:
+   the report to the breaker (so_fin), the Call made (so_start), the request the directory received
+   (so_req), the operation that returned (so_done). For every rule, option, page budget and script.
+   ================================================================================================ *)
+
+(* The client's breaker only ever goes through breaker steps, so every theorem above applies to it;
+   the outstanding directory requests are exactly the breaker's calls in flight. *)
+Theorem C15_client_breaker_is_the_breaker : forall trip reset backoff hom F dir evs,
+  let s := sexec trip reset backoff hom F dir evs in
+  (exists bevs, br s = exec trip reset backoff hom bevs) /\
+  map p_gen (pend s) = inflight (br s) /\
+  cur (cnt (br s)) = Z.of_nat (length (pend s)).
+Proof. exact client_breaker_reachable. Qed.
+Print Assumptions C15_client_breaker_is_the_breaker.
+
+(* Every request the directory receives was admitted by the breaker in that very step (one Call,
+   one request, next arrival index); a rejected Call sends nothing and ends the whole listing /
+   check with the breaker's error; without a Call nothing is sent. *)
+Theorem C15_client_request_iff_admitted : forall trip reset backoff hom F dir evs e,
+  let s := sexec trip reset backoff hom F dir evs in
+  let o := snd (sstep trip reset backoff hom F dir s e) in
+  let s' := sstep_st trip reset backoff hom F dir s e in
+  (forall opid n q, so_req o = Some (opid, n, q) ->
+     n = nreq s /\ nreq s' = S (nreq s) /\
+     exists ob, so_start o = Some ob /\ o_adm ob = Some true /\ o_ran ob = true) /\
+  (forall ob, so_start o = Some ob -> o_adm ob = Some true ->
+     exists opid q, so_req o = Some (opid, nreq s, q) /\ so_done o = None) /\
+  (forall ob, so_start o = Some ob -> o_adm ob <> Some true ->
+     o_adm ob = Some false /\ o_ran ob = false /\ so_req o = None /\ nreq s' = nreq s /\
+     exists opid, so_done o = Some (opid, RErr EOpen)) /\
+  (so_start o = None -> so_req o = None /\ nreq s' = nreq s).
+Proof. exact client_request_iff_admitted. Qed.
+Print Assumptions C15_client_request_iff_admitted.
+
+(* Over a whole run: the directory received exactly requests 0..nreq-1; each is either still
+   outstanding or was reported to the breaker EXACTLY ONCE, as success iff the answer the directory
+   gave to that very request was a success (ans_ok: any googleapi error, 404 included, and any
+   undecodable body is a failure); and Calls = requests + rejections. *)
+Theorem C15_client_every_outcome_reported_once : forall trip reset backoff hom F dir evs,
+  let s := sexec trip reset backoff hom F dir evs in
+  let os := strace trip reset backoff hom F dir evs in
+  map req_idx (reqs_of os) = seq 0 (nreq s) /\
+  Permutation (seq 0 (nreq s)) (map fin_idx (fins_of os) ++ map p_idx (pend s)) /\
+  Forall (fun x => exists q, In (fst (fst (fst x)), fin_idx x, q) (reqs_of os) /\
+                             snd (fst x) = ans_ok (dir (fin_idx x) q)) (fins_of os) /\
+  length (starts_of os) = (length (reqs_of os) + length (filter was_rejected (starts_of os)))%nat.
+Proof. exact client_accounting. Qed.
+Print Assumptions C15_client_every_outcome_reported_once.
+
+(* Composition with C15_open_rejects_until: while the breaker is open and the deadline has not
+   strictly passed, whatever operations begin or resume, the directory receives NOTHING; every
+   Call made is rejected silently. *)
+Theorem C15_client_open_sends_nothing : forall trip reset backoff hom F dir evs evs',
+  let s := sexec trip reset backoff hom F dir evs in
+  let s' := sexec trip reset backoff hom F dir (evs ++ evs') in
+  st (br s) = Open -> Forall stick_nonneg evs' -> now (br s) + sticks evs' <= expires (br s) ->
+  st (br s') = Open /\ gen (br s') = gen (br s) /\ expires (br s') = expires (br s) /\ nreq s' = nreq s /\
+  reqs_of (strace_from trip reset backoff hom F dir s evs') = [] /\
+  Forall (fun ob => o_adm ob = Some false /\ o_hooks ob = []) (starts_of (strace_from trip reset backoff hom F dir s evs')).
+Proof. exact client_open_sends_nothing. Qed.
+Print Assumptions C15_client_open_sends_nothing.
+
+(* Composition with C15_halfopen_cap: in half-open at most the configured number of outstanding
+   directory requests were admitted in the current generation — follow-up pages count. *)
+Theorem C15_client_halfopen_cap : forall trip reset backoff hom F dir evs,
+  let s := sexec trip reset backoff hom F dir evs in
+  st (br s) = HalfOpen ->
+  Z.of_nat (count_gen (gen (br s)) (map p_gen (pend s))) <= half_open_max hom.
+Proof. exact client_halfopen_cap. Qed.
+Print Assumptions C15_client_halfopen_cap.
+
+(* Every Call of both operations answers a rejection with the breaker's error and never invents
+   that error otherwise; error mapping of the first request of a listing and of a check. *)
+Theorem C15_client_rejection_is_breaker_error : forall F o, rej_open (prog_of F o).
+Proof. exact rej_open_prog_of. Qed.
+Print Assumptions C15_client_rejection_is_breaker_error.
+
+Theorem C15_client_list_error_mapping : forall F g d, exists k,
+  list_prog (S F) g d = Req (RList g []) (RErr EOpen) k /\
+  (forall c, k (AErr c) = Ret (RErr (list_err c))) /\ k ABad = Ret (RErr EOther).
+Proof. exact list_first_call. Qed.
+Print Assumptions C15_client_list_error_mapping.
+
+Theorem C15_client_check_error_mapping : forall g gs email acc, exists k,
+  check_prog (g :: gs) email acc = Req (RHas g email) (RErr EOpen) k /\
+  k (AErr 404) = check_prog gs email acc /\
+  (forall c, c <> 404 -> k (AErr c) = Ret (RErr (check_err c))) /\
+  k (AHas true) = check_prog gs email (acc ++ [g]) /\ k (AHas false) = check_prog gs email acc /\
+  k ABad = Ret (RErr EOther).
+Proof. exact check_call. Qed.
+Print Assumptions C15_client_check_error_mapping.
+
+(* What a listing returns (also of use to C17): against a directory that answers by content, a
+   listing that succeeds returns exactly the users of all pages in order, every nested group
+   replaced in place by its own expansion, [max_depth] levels deep; a check returns exactly the
+   groups whose HasMember answer said yes. An operation all of whose exchanges were answered by
+   content behaves as if it ran alone. *)
+Theorem C15_client_listing_result : forall tbl F g d l,
+  run_alone tbl (list_prog F g d) = ROk l -> l = expand tbl F d g.
+Proof. exact list_result_is_expansion. Qed.
+Print Assumptions C15_client_listing_result.
+
+Theorem C15_client_check_result : forall tbl gs email l,
+  run_alone tbl (check_prog gs email []) = ROk l ->
+  l = filter (fun g => match tbl (RHas g email) with AHas true => true | _ => false end) gs.
+Proof. intros tbl gs email l H. exact (run_check tbl gs email [] l H). Qed.
+Print Assumptions C15_client_check_result.
+
+Theorem C15_client_exchanges_determine_result : forall tbl xs p r,
+  feed p xs = FDone r -> Forall (fun x => snd x = tbl (fst x)) xs -> run_alone tbl p = r.
+Proof. exact feed_run_alone. Qed.
+Print Assumptions C15_client_exchanges_determine_result.
+
+(* The programs are the code read directly: feeding an operation its own exchanges equals the
+   direct-style reading [replay] of listMemberships / CheckMemberships used by the monitor. *)
+Theorem C15_client_program_is_direct_reading : forall F o xs,
+  feed (prog_of F o) xs =
+  match replay F o xs with
+  | (RDone r, xs1) => feed (Ret r) xs1
+  | (RPend, _) => FPending (RErr EOpen)
+  | _ => FWrong
+  end.
+Proof. exact feed_replay. Qed.
+Print Assumptions C15_client_program_is_direct_reading.
+
+(* The property as the check applies it to the real GoogleAdminService (Corr_C15Client.cholds)
+   accepts the model's projected trace of every interleaving, script and parameter choice. *)
+Theorem C15_client_monitor_accepts_model : forall p sc evs,
+  cholds p sc evs (cmodel_trace p sc evs) (length (pend (cmodel_final p sc evs))) = true.
+Proof. exact client_monitor_accepts_model. Qed.
+Print Assumptions C15_client_monitor_accepts_model.
